@@ -27,6 +27,36 @@ type specCtx struct {
 	paramsEntry bool // postconditions: parameter names denote their values at entry
 }
 
+// evalAssume / evalGoal: top-level evaluation of a contract formula.  Type-system facts about the
+// values the formula reads from the heap (slice lengths >= 0, byte ranges, ...) are added as
+// conjuncts when the formula is assumed and as hypotheses when it is to be proved.
+func (g *Gen) evalAssume(ctx *specCtx, e Expr) string {
+	save := g.specFacts
+	g.specFacts = nil
+	t := g.evalBool(ctx, e)
+	f := g.specFacts
+	g.specFacts = save
+	return and(append(f, t)...)
+}
+
+func (g *Gen) evalGoal(ctx *specCtx, e Expr) string {
+	save := g.specFacts
+	g.specFacts = nil
+	t := g.evalBool(ctx, e)
+	f := g.specFacts
+	g.specFacts = save
+	return implies(and(f...), t)
+}
+
+func (g *Gen) specFact(v Val, t types.Type) {
+	if g.inQuant > 0 {
+		return // facts about terms under a binder cannot be hoisted
+	}
+	if inv := g.typeInv(v, t); inv != "true" {
+		g.specFacts = append(g.specFacts, inv)
+	}
+}
+
 func (g *Gen) evalBool(ctx *specCtx, e Expr) string {
 	v := g.evalSpec(ctx, e)
 	b, ok := v.(BoolV)
@@ -137,7 +167,9 @@ func (g *Gen) evalSpec(ctx *specCtx, e Expr) Val {
 			decl = append(decl, "("+n+" "+sort+")")
 			c2 = c2.withBound(v, val)
 		}
+		g.inQuant++
 		body := g.evalBool(c2, x.Body)
+		g.inQuant--
 		q := "exists"
 		if x.All {
 			q = "forall"
@@ -164,7 +196,9 @@ func (g *Gen) specLoad(ctx *specCtx, p PtrV) Val {
 		}
 		return g.cellGet(v, p.CPath)
 	}
-	return g.loadHeap(ctx.st, p)
+	v := g.loadHeap(ctx.st, p)
+	g.specFact(v, p.Elem)
+	return v
 }
 
 func (g *Gen) evalIdent(ctx *specCtx, name string) Val {
@@ -322,7 +356,9 @@ func (g *Gen) evalSel(ctx *specCtx, x *ESel) Val {
 			np := b
 			np.Steps = append(append([]pstep(nil), b.Steps...), pstep{Field: i, Name: x.F})
 			np.Elem = ft
-			return g.loadHeap(ctx.st, np)
+			lv := g.loadHeap(ctx.st, np)
+			g.specFact(lv, ft)
+			return lv
 		}
 		// ghost field
 		if gf := g.W.ghostField(b.Elem, x.F); gf != nil {
@@ -602,7 +638,7 @@ func (g *Gen) evalCall(ctx *specCtx, x *ECall) Val {
 		}
 		return BoolV{eq(iv.Tag, fmt.Sprint(id))}
 	case "held":
-		return BoolV{g.heldTerm(ctx.st, g.lockKey(arg(0)))}
+		return BoolV{g.heldTerm(ctx.st, g.heldKeyOfExpr(ctx, x.Args[0]))}
 	case "int":
 		return arg(0)
 	case "u64", "uint64":
